@@ -25,6 +25,8 @@ typedef enum {
 typedef void (*FooCallback) (gint value, gpointer user_data);
 typedef gint FooAlias;
 typedef guint8 FooByte;
+typedef FooRec FooRecAlias;
+typedef FooUni FooUniAlias;
 '''
 
 # value kinds: spelling -> properties used by the reference models
@@ -37,7 +39,7 @@ KINDS = collections.OrderedDict([
     ('intptr', ['gint *', 'guint *', 'gdouble *', 'gsize *', 'gboolean *', 'guint8 *', 'const guint8 *', 'int *', 'gint64 *']),
     ('string', ['const char *', 'const gchar *', 'gchar *', 'char *']),
     ('strptr', ['gchar **', 'char **', 'const gchar **']),
-    ('record', ['FooRec *', 'const FooRec *', 'FooUni *', 'FooOpaque *']),
+    ('record', ['FooRec *', 'const FooRec *', 'FooUni *', 'FooOpaque *', 'FooRecAlias *', 'FooUniAlias *']),      # incl. typedef aliases of aggregates
     ('recordpp', ['FooRec **', 'FooOpaque **']),
     ('object', ['GObject *', 'GCancellable *', 'GFile *', 'GAsyncResult *']),      # classes and interfaces
     ('objectpp', ['GObject **']),
